@@ -27,7 +27,7 @@ DIMKINDS = ("idim_out", "ddim_out")
 
 
 def base_of(kind):
-    if kind in LISTKINDS or kind in ("pt_out", "dvec_out") or kind in DIMKINDS:
+    if kind in LISTKINDS or kind in ("pt_out", "dvec_out", "int_hidden") or kind in DIMKINDS:
         return kind
     for suf in ("_out", "_inout"):
         if kind.endswith(suf):
@@ -46,6 +46,8 @@ class P:
 
     @property
     def intent(self):
+        if self.kind == "int_hidden":
+            return "out"
         if self.kind in ("clsptr", "ilist_inout"):
             return "inout"          # a non-const class pointer is intent(inout) by default
         if self.kind.endswith("_out"):
@@ -88,6 +90,10 @@ class P:
             s = "%s *%s%s" % (self.base(), n, a(" +intent(out)"))
         elif k in ("int_inout", "double_inout"):
             s = "%s *%s%s" % (self.base(), n, a(" +intent(inout)"))
+        elif k == "cstr_out":
+            s = "char *%s%s" % (n, a(" +intent(out)+charlen(20)"))
+        elif k == "int_hidden":
+            s = "int *%s%s" % (n, a(" +intent(out)+hidden"))
         elif k == "string_out":
             s = "std::string &%s%s" % (n, a(" +intent(out)"))
         elif k == "string_inout":
@@ -179,8 +185,15 @@ def dim_total(dims, env):
     return n
 
 
-def c_total(dims):
-    return "*".join("(%s)" % e for e in dims)
+def c_total(dims, hidden=()):
+    """the element count in C; a hidden intent(out) argument that an extent names is read through its pointer"""
+    import re
+    out = []
+    for e in dims:
+        for h in hidden:
+            e = re.sub(r"\b%s\b" % re.escape(h), "(*%s)" % h, e)
+        out.append("(%s)" % e)
+    return "*".join(out)
 
 
 def out_value(p, idx, inval=None, env=None):
@@ -198,6 +211,10 @@ def out_value(p, idx, inval=None, env=None):
         return [0.5, 1.5]
     if p.kind == "string_inout":
         return "<" + inval + ">"
+    if p.kind == "int_hidden":
+        return 3 + idx
+    if p.kind == "cstr_out":
+        return "co%d" % idx
     if p.intent == "inout":
         return inval + 1
     if b == "int":
@@ -298,6 +315,8 @@ def _body(f, language):
             lines.append("{ int i_; for (i_ = 0; i_ < %s; i_++) %s[i_] = i_ + 0.5; }" % (c_total(p.dims), p.name))
         elif p.kind == "string_inout":
             lines.append('%s = "<" + %s + ">";' % (p.name, p.name))
+        elif p.kind == "cstr_out":
+            lines.append('strcpy(%s, "%s");' % (p.name, out_value(p, idx)))
         elif p.intent == "inout":
             lines.append("*%s = *%s + 1;" % (p.name, p.name))
         elif p.intent == "out":
@@ -327,7 +346,8 @@ def _body(f, language):
         elif f.result == "pt":
             lines.append("Pt r_; r_.x = %d; r_.y = %r; return r_;" % v)
         elif f.result == "idim_res":
-            lines.append("static int t_[8192]; { int i_; for (i_ = 0; i_ < %s; i_++) t_[i_] = 200 + i_; } return t_;" % c_total(f.resdims))
+            hid = [q.name for q in f.params if q.kind == "int_hidden"]
+            lines.append("static int t_[8192]; { int i_; for (i_ = 0; i_ < %s; i_++) t_[i_] = 200 + i_; } return t_;" % c_total(f.resdims, hid))
         elif f.result == "ivec":
             lines.append("std::vector<int> r_; r_.push_back(2); r_.push_back(4); r_.push_back(6); return r_;")
         elif f.result in ("clsptr_res", "clsref_res"):
@@ -471,6 +491,9 @@ def rand_dim_function(r, language, name):
     params = [P("int", n) for n in names]
     if r.random() < 0.3:
         params.insert(r.randrange(len(params) + 1), P(r.choice(["double", "bool", "cstr"]), "x"))
+    if r.random() < 0.25:
+        params.append(P("int_hidden", "cnt"))
+        return F(name, "idim_res", params, resdims=rand_dims(r, names + ["cnt"]))
     if r.random() < 0.4:
         return F(name, "idim_res", params, resdims=rand_dims(r, names))
     k = r.choice(["idim_out", "ddim_out"])
@@ -488,7 +511,7 @@ def rand_param(r, language, idx, cls=None, allow=("in", "out", "inout")):
         if cls:
             kinds.append("cls")
     if "out" in allow:
-        kinds += ["int_out", "double_out"] + (["string_out", "pt_out", "dvec_out"] if language != "c" else [])
+        kinds += ["int_out", "double_out", "cstr_out", "int_hidden"] + (["string_out", "pt_out", "dvec_out"] if language != "c" else [])
     if "inout" in allow:
         kinds += ["int_inout", "double_inout", "ilist_inout"] + (["string_inout"] if language != "c" else [])
     k = r.choice(kinds)
@@ -606,6 +629,15 @@ def fixed_cxx(name):
         F("cf", "int", [P("int_out", "out"), P("int", "q")], label="cf#1"),
         F("cg", "int", [P("cintp", "v")], label="cg#0"),
         F("cg", "int", [P("int_out", "v")], label="cg#1"),
+        F("ch", "int", [P("cstr", "s")], label="ch#0"),
+        F("ch", "int", [P("cstr_out", "s")], label="ch#1"),
+        F("cout1", "void", [P("cstr_out", "s")]),
+        F("cout2", "int", [P("int", "k"), P("cstr_out", "s")]),
+        # hidden intent(out) arguments: passed to the library, never returned; may size a +dimension result
+        F("hid", "void", [P("int", "i"), P("int_hidden", "o")]),
+        F("hid2", "int", [P("int_hidden", "o"), P("int", "i"), P("int_out", "p")]),
+        F("series", "idim_res", [P("int_hidden", "count")], resdims=["count"]),
+        F("series2", "idim_res", [P("int", "n"), P("int_hidden", "count")], resdims=["count", "n+1"]),
         F("mixv", "int", [P("dvec", "x"), P("int", "k", default=2)], label="mixv#0"),
         F("mixv", "int", [P("double", "x")], label="mixv#1"),
         F("getobj", "clsptr_res", [], rescls=C),
@@ -670,7 +702,7 @@ def shape_of(f):
 
 # C++ parameter type classes for overload resolution (const and non-const pointers are different overloads;
 # the wrapper keeps the constness in its call since 9b03bee)
-CXX_CLASS = {"ilist": "const int*", "cintp": "const int*", "ilist_inout": "int*", "int_out": "int*", "int_inout": "int*",
+CXX_CLASS = {"cstr": "const char*", "cstr_out": "char*", "int_hidden": "int*", "ilist": "const int*", "cintp": "const int*", "ilist_inout": "int*", "int_out": "int*", "int_inout": "int*",
              "idim_out": "int*", "dlist": "const double*", "double_out": "double*", "double_inout": "double*",
              "ddim_out": "double*", "implied": "int", "enum": "int"}
 
